@@ -287,6 +287,13 @@ func main() {
 		case "concat":
 			c := components.NewConcatenator(wf, p.Name, p.Arg)
 			procs[p.Name], owners[p.Name] = c, c
+		case "splitter": // ports: file -> split_file; Arg = lines per part (default 1)
+			n, err := strconv.Atoi(p.Arg)
+			if err != nil || n < 1 {
+				n = 1
+			}
+			c := components.NewFileSplitter(wf, p.Name, n)
+			procs[p.Name], owners[p.Name] = c, c
 		default:
 			die("unknown kind %q", p.Kind)
 		}
